@@ -355,6 +355,9 @@ func (p *BlockPipeline) PendingCount() int {
 	// the apply stage is done with all numbers below processedCount. Read the
 	// processed count first: it can never be ahead of the counter read after it.
 	processed := p.applyStage.processedCount()
+	if verifEnabled {
+		verifStageDelay("pending_read", nil)
+	}
 	pending := int(p.sequenceCounter.Load() - processed) // #nosec G115
 	if verifEnabled {
 		verifTrace("pending_count", nil, pending)
